@@ -500,10 +500,30 @@ pub fn run_invocation(scratch: &mut Scratch, tree: &Tree, inv: &Inv, out: &Path)
     // bare output name: the file lives in the working directory for the duration of the
     // invocation (rename keeps inode and mtime, so the before/after snapshots stay comparable)
     let bare: Option<(PathBuf, PathBuf)> = if inv.mode == Mode::File && inv.out_sub == BARE {
-        let cwd_file = std::env::current_dir().unwrap_or_default().join(bare_name(out, inv));
+        let cwd = std::env::current_dir().unwrap_or_default();
+        let bname = bare_name(out, inv);
+        let cwd_file = cwd.join(&bname);
         let home = out.join(inv.out_name());
-        let _ = std::fs::remove_file(&cwd_file);
-        let _ = std::fs::rename(&home, &cwd_file);
+        // nothing of an earlier case may be lying around under this name (or a name derived from
+        // it: temporary files, side files)
+        if let Ok(rd) = std::fs::read_dir(&cwd) {
+            for e in rd.flatten() {
+                if e.file_name().to_string_lossy().contains(&bname) {
+                    let _ = std::fs::remove_file(e.path());
+                }
+            }
+        }
+        // the output file and its siblings (`types.ts.stamp`, `.types.ts.tmp`, ...) move into
+        // the working directory under the bare name
+        let leaf = inv.out_name();
+        if let Ok(rd) = std::fs::read_dir(out) {
+            for e in rd.flatten() {
+                let n = e.file_name().to_string_lossy().into_owned();
+                if n.contains(&leaf) && e.path().is_file() {
+                    let _ = std::fs::rename(e.path(), cwd.join(n.replace(&leaf, &bname)));
+                }
+            }
+        }
         Some((cwd_file, home))
     } else {
         None
@@ -669,12 +689,20 @@ pub fn run_invocation(scratch: &mut Scratch, tree: &Tree, inv: &Inv, out: &Path)
         std::thread::sleep(std::time::Duration::from_micros(50));
     }
     let mut o = handle.join().expect("invocation thread must not die");
-    if let Some((cwd_file, home)) = &bare {
-        if cwd_file.exists() {
-            let _ = std::fs::create_dir_all(out);
-            let _ = std::fs::rename(cwd_file, home);
-        }
+    if let Some((cwd_file, _home)) = &bare {
         let name = cwd_file.file_name().map(|n| n.to_string_lossy().into_owned()).unwrap_or_default();
+        // ... and back into the output location afterwards
+        let cwd = std::env::current_dir().unwrap_or_default();
+        let leaf = inv.out_name();
+        if let Ok(rd) = std::fs::read_dir(&cwd) {
+            for e in rd.flatten() {
+                let n = e.file_name().to_string_lossy().into_owned();
+                if n.contains(&name) && e.path().is_file() {
+                    let _ = std::fs::create_dir_all(out);
+                    let _ = std::fs::rename(e.path(), out.join(n.replace(&name, &leaf)));
+                }
+            }
+        }
         // the unique bare name depends on the scratch area: keep it out of the event log
         let canonical = format!("out/{}", inv.out_name());
         for op in o.oplog.iter_mut() {
